@@ -246,7 +246,7 @@ fn solve_axis(family: &str, problem: &PProblem, report: &mut Report) {
             Ok(solved) => {
                 let mut seen = std::collections::HashSet::new();
                 for f in oracle::check(problem, &solved.json, &OracleOptions { tol: oracle::tolerance(family, problem) }) {
-                    if seen.insert(f.rule.clone()) {
+                    if oracle::applies(&f, family, problem) && seen.insert(f.rule.clone()) {
                         report.violation(Violation::new(format!("layout:{}:{family}", f.rule), f.what, scen.clone()));
                     }
                 }
